@@ -26,7 +26,10 @@ pub fn child_main(port: u16, marker: String) -> i32 {
             rlim_cur: 6 << 30,
             rlim_max: 6 << 30,
         };
-        libc::setrlimit(libc::RLIMIT_AS, &lim);
+        // memcheck needs far more address space than the program it runs
+        if std::env::var("VERIF_C16_NO_RLIMIT").is_err() {
+            libc::setrlimit(libc::RLIMIT_AS, &lim);
+        }
         // no core files: a crashing child must be reaped quickly
         let core = libc::rlimit { rlim_cur: 0, rlim_max: 0 };
         libc::setrlimit(libc::RLIMIT_CORE, &core);
@@ -117,6 +120,13 @@ impl ChildProc {
             std::thread::sleep(Duration::from_millis(20));
         }
         Ok(cp)
+    }
+
+    /// CPU time (ms) the child burns during `ms` milliseconds in which the harness sends nothing
+    fn burn_ms(&self, ms: u64) -> u64 {
+        let c1 = self.cpu_ms().unwrap_or(0);
+        std::thread::sleep(Duration::from_millis(ms));
+        self.cpu_ms().unwrap_or(c1).saturating_sub(c1)
     }
 
     fn pid(&self) -> u32 {
@@ -390,6 +400,204 @@ pub fn corpus(rng: &mut Rng, thorough: bool) -> Vec<Input> {
     v
 }
 
+
+// ---------------------------------------------------------------------------------------------
+// sanitizer leg: the same child under valgrind memcheck, a reduced corpus, no timing verdicts
+
+fn memcheck_kind(line: &str) -> Option<&'static str> {
+    for (pat, kind) in [
+        ("Invalid read", "invalid-read"),
+        ("Invalid write", "invalid-write"),
+        ("Invalid free", "invalid-free"),
+        ("Mismatched free", "mismatched-free"),
+        ("Conditional jump or move depends on uninitialised", "uninitialised-condition"),
+        ("Use of uninitialised value", "uninitialised-use"),
+        ("points to uninitialised", "uninitialised-syscall-param"),
+        ("contains uninitialised", "uninitialised-syscall-param"),
+        ("Source and destination overlap", "overlap"),
+        ("has a fishy", "fishy-size"),
+        ("Process terminating with default action of signal", "fatal-signal"),
+        ("Jump to the invalid address", "invalid-jump"),
+    ] {
+        if line.contains(pat) {
+            return Some(kind);
+        }
+    }
+    None
+}
+
+/// Parses a memcheck log (-q: only error blocks) into (kind, first frame inside undermoon or the first frame at all, block text).
+pub fn parse_memcheck_log(text: &str) -> Vec<(String, String, String)> {
+    let mut out = vec![];
+    let mut cur: Option<(String, Vec<String>)> = None;
+    for raw in text.lines() {
+        let line = match raw.find("== ") {
+            Some(i) if raw.starts_with("==") => &raw[i + 3..],
+            _ => {
+                if raw.starts_with("==") { "" } else { continue }
+            }
+        };
+        if let Some(kind) = memcheck_kind(line) {
+            if let Some((k, l)) = cur.take() {
+                out.push((k, l));
+            }
+            cur = Some((kind.to_string(), vec![line.to_string()]));
+        } else if line.trim().is_empty() {
+            if let Some((k, l)) = cur.take() {
+                out.push((k, l));
+            }
+        } else if let Some((_, l)) = cur.as_mut() {
+            l.push(line.to_string());
+        }
+    }
+    if let Some((k, l)) = cur.take() {
+        out.push((k, l));
+    }
+    out.into_iter()
+        .map(|(k, l)| {
+            let frames: Vec<&String> = l.iter().filter(|x| x.trim_start().starts_with("at ") || x.trim_start().starts_with("by ")).collect();
+            let frame_name = |f: &String| -> String {
+                let t = f.trim_start();
+                let t = t.splitn(2, ": ").nth(1).unwrap_or(t);
+                t.split(" (").next().unwrap_or(t).chars().take(80).collect()
+            };
+            let site = frames.iter().find(|f| f.contains("undermoon::")).or(frames.first()).map(|f| frame_name(f)).unwrap_or_else(|| "?".to_string());
+            (k, site, l.join("\n"))
+        })
+        .collect()
+}
+
+pub fn valgrind_leg(rep: &mut Report, inputs: &[Input]) {
+    let vg = "/usr/bin/valgrind";
+    if !std::path::Path::new(vg).exists() {
+        rep.inconclusive("memcheck leg: valgrind is not installed");
+        return;
+    }
+    let started = Instant::now();
+    let port = match free_port() {
+        Some(p) => p,
+        None => return rep.inconclusive("memcheck leg: no free port"),
+    };
+    let dir = crate::report::verif_dir().join("scratch");
+    let _ = std::fs::create_dir_all(&dir);
+    let marker = dir.join(format!("c16-vg-panics-{}.log", std::process::id())).to_string_lossy().to_string();
+    let vglog = dir.join(format!("c16-vg-{}.log", std::process::id())).to_string_lossy().to_string();
+    let _ = std::fs::remove_file(&marker);
+    let _ = std::fs::remove_file(&vglog);
+    let exe = match std::env::current_exe() {
+        Ok(e) => e,
+        Err(_) => return rep.inconclusive("memcheck leg: cannot find own executable"),
+    };
+    let child = Command::new(vg)
+        .arg("-q")
+        .arg("--num-callers=30")
+        .arg("--error-limit=no")
+        .arg(format!("--log-file={}", vglog))
+        .arg(exe)
+        .arg("C16-CHILD")
+        .arg(port.to_string())
+        .arg(&marker)
+        .env("VERIF_C16_NO_RLIMIT", "1")
+        .stdin(Stdio::null())
+        .stdout(Stdio::null())
+        .stderr(Stdio::null())
+        .spawn();
+    let child = match child {
+        Ok(c) => c,
+        Err(e) => return rep.inconclusive(format!("memcheck leg: cannot start valgrind: {}", e)),
+    };
+    let mut cp = ChildProc { child, port, marker, marker_len: 0 };
+    let t0 = Instant::now();
+    loop {
+        if TcpStream::connect(("127.0.0.1", port)).is_ok() {
+            break;
+        }
+        if cp.exited().is_some() || t0.elapsed() > Duration::from_secs(600) {
+            let _ = std::fs::remove_file(&vglog);
+            return rep.inconclusive("memcheck leg: the child did not come up under valgrind");
+        }
+        std::thread::sleep(Duration::from_millis(200));
+    }
+    let long = Duration::from_secs(300);
+    let mut canary = match Conn::open(port) {
+        Some(c) => c,
+        None => return rep.inconclusive("memcheck leg: cannot open canary connection"),
+    };
+    let mut fed = 0u64;
+    let mut inconclusive: Option<String> = None;
+    // plain traffic with compression on (zstd is C code), then the hostile corpus
+    let setup: Vec<Vec<&[u8]>> = vec![
+        vec![b"UMCTL", b"SETCLUSTER", b"v2", b"5", b"NOFLAGS", b"c16", b"127.0.0.1:6000", b"1", b"0-8000", b"127.0.0.1:6001", b"1", b"8001-16383", b"CONFIG", b"compression_strategy", b"allow_all"],
+        vec![b"SET", b"vg-key", b"hello hello hello hello hello hello hello hello"],
+        vec![b"GET", b"vg-key"],
+        vec![b"MSET", b"{t}a", b"1111111111111111111111", b"{t}b", b""],
+        vec![b"MGET", b"{t}a", b"{t}b", b"{t}c"],
+        vec![b"CLUSTER", b"NODES"],
+        vec![b"CLUSTER", b"SLOTS"],
+    ];
+    for argv in setup.iter() {
+        if canary.roundtrip(argv, long).is_none() {
+            inconclusive = Some("memcheck leg: no reply to the warm-up traffic".to_string());
+            break;
+        }
+        fed += 1;
+    }
+    if inconclusive.is_none() {
+        for input in inputs.iter() {
+            if input.bytes.len() > 300_000 || !input.prelude.is_empty() {
+                continue;
+            }
+            if started.elapsed() > Duration::from_secs(1500) {
+                break;
+            }
+            let mut hostile = match Conn::open(port) {
+                Some(c) => c,
+                None => {
+                    inconclusive = Some(format!("memcheck leg: connection refused before input '{}'", input.desc));
+                    break;
+                }
+            };
+            let _ = hostile.s.set_write_timeout(Some(Duration::from_secs(60)));
+            let _ = hostile.s.write_all(&input.bytes);
+            let _ = hostile.s.set_read_timeout(Some(Duration::from_millis(if input.complete { 3000 } else { 300 })));
+            let mut sink = [0u8; 65536];
+            let _ = hostile.s.read(&mut sink);
+            fed += 1;
+            if canary.roundtrip(&[b"PING"], long).is_none() {
+                // deaths are judged by the native leg (same input, no interpreter in between)
+                inconclusive = Some(format!("memcheck leg: the child stopped answering after input '{}' ({:?})", input.desc, cp.exited()));
+                break;
+            }
+        }
+    }
+    drop(canary);
+    unsafe {
+        libc::kill(cp.pid() as i32, libc::SIGTERM);
+    }
+    for _ in 0..100 {
+        if cp.exited().is_some() {
+            break;
+        }
+        std::thread::sleep(Duration::from_millis(100));
+    }
+    drop(cp);
+    let text = std::fs::read_to_string(&vglog).unwrap_or_default();
+    let _ = std::fs::remove_file(&vglog);
+    let errors: Vec<(String, String, String)> = parse_memcheck_log(&text).into_iter().filter(|(k, _, b)| !(k == "fatal-signal" && b.contains("signal 15"))).collect();
+    rep.count("memcheck_inputs_fed", fed);
+    rep.count("memcheck_error_blocks", errors.len() as u64);
+    for (kind, site, block) in errors.iter() {
+        rep.violation(format!("C16:memcheck:{}:{}", kind, site), format!("valgrind memcheck reported '{}' in the proxy process", kind), json!({"report": block}));
+    }
+    rep.extra.insert(
+        "sanitizer_leg".into(),
+        json!({"tool": "valgrind memcheck 3.19 on the unmodified debug binary of the proxy child", "inputs_fed": fed, "error_blocks": errors.len(), "wall_s": started.elapsed().as_secs_f64(), "completed": inconclusive.is_none()}),
+    );
+    if let Some(r) = inconclusive {
+        rep.inconclusive(r);
+    }
+}
+
 struct Judge<'a> {
     rep: &'a mut Report,
     phase: &'static str,
@@ -425,7 +633,9 @@ fn run_input(j: &mut Judge, cp: &mut ChildProc, canary: &mut Conn, input: &Input
     let wrote = hostile.s.write_all(&input.bytes).is_ok();
     let _ = hostile.s.flush();
     // CPU budget for this request: generous constant + linear in the bytes sent
-    let budget_ms = 1500 + (input.bytes.len() as u64) / 200;
+    // (debug build, possibly a loaded machine: CPU time itself inflates under contention)
+    let budget_ms = 4000 + (input.bytes.len() as u64) / 100;
+    let mut idle_checks = 0u32;
     let wall_cap = Duration::from_secs(90);
     let start = Instant::now();
     let mut answered = false;
@@ -479,33 +689,43 @@ fn run_input(j: &mut Judge, cp: &mut ChildProc, canary: &mut Conn, input: &Input
         let cpu = cp.cpu_ms().unwrap_or(cpu0).saturating_sub(cpu0);
         if !input.complete && canary_rtts >= 4 {
             // waiting for the rest of a truncated packet is fine - once the child has gone quiet
-            let c1 = cp.cpu_ms().unwrap_or(0);
-            std::thread::sleep(Duration::from_millis(120));
-            let c2 = cp.cpu_ms().unwrap_or(0);
-            if c2.saturating_sub(c1) < 20 && cp.exited().is_none() {
+            if cp.burn_ms(120) < 20 && cp.exited().is_none() {
                 break;
             }
         }
-        if cpu > budget_ms {
-            j.rep.violation(
-                format!("C16:request-not-finished-within-cpu-budget:{}", input.class),
-                format!("after {} ms of CPU time (budget {} ms for {} bytes) input '{}' has neither been answered nor the connection closed", cpu, budget_ms, input.bytes.len(), input.desc),
-                detail(json!({"cpu_ms": cpu, "canary_round_trips": canary_rtts})),
-            );
-            verdict_done = true;
-            break;
-        }
-        if input.complete && canary_rtts > 400 && cpu < 100 {
-            // idle, not burning CPU, but no reply: only blocking commands may do that
-            if input.class != "cmd:blocking-pop" {
+        // the canary's own round trips cost the child CPU as well (thread wake-ups): 1 ms each is allowed for
+        if cpu > budget_ms + canary_rtts {
+            // over budget: is the child still burning CPU (no traffic from us for 200 ms)?
+            let burn = cp.burn_ms(200);
+            if burn >= 100 {
                 j.rep.violation(
-                    format!("C16:complete-request-never-answered:{}", input.class),
-                    format!("input '{}' is a complete request, the proxy is idle, but no reply came and the connection stays open", input.desc),
-                    detail(json!({"canary_round_trips": canary_rtts})),
+                    format!("C16:request-not-finished-within-cpu-budget:{}", input.class),
+                    format!("after {} ms of CPU time (budget {} ms for {} bytes) input '{}' has neither been answered nor the connection closed, and the proxy is still burning CPU ({} ms in the last 200 ms)", cpu, budget_ms, input.bytes.len(), input.desc, burn),
+                    detail(json!({"cpu_ms": cpu, "canary_round_trips": canary_rtts})),
                 );
+                verdict_done = true;
+                break;
             }
-            verdict_done = true;
-            break;
+        }
+        if input.complete && canary_rtts >= 60 && canary_rtts % 30 == 0 {
+            // no reply yet: a request that is parked (child idle with no traffic from us) will never be answered
+            if cp.burn_ms(150) < 20 {
+                idle_checks += 1;
+            } else {
+                idle_checks = 0;
+            }
+            if idle_checks >= 3 {
+                // idle, not burning CPU, but no reply: only blocking commands may do that
+                if input.class != "cmd:blocking-pop" {
+                    j.rep.violation(
+                        format!("C16:complete-request-never-answered:{}", input.class),
+                        format!("input '{}' is a complete request, the proxy is idle, but no reply came and the connection stays open", input.desc),
+                        detail(json!({"canary_round_trips": canary_rtts})),
+                    );
+                }
+                verdict_done = true;
+                break;
+            }
         }
         if start.elapsed() > wall_cap {
             j.rep.inconclusive(format!("wall-clock cap reached on input '{}'", input.desc));
@@ -620,6 +840,10 @@ pub fn run(rep: &mut Report) {
         for i in inputs.iter().step_by(inputs.len() / 4 + 1) {
             rep.sample(json!({"class": i.class, "input": i.desc, "bytes": i.bytes.len()}));
         }
+    }
+    if thorough || std::env::var("VERIF_C16_VALGRIND").is_ok() {
+        valgrind_leg(rep, &inputs);
+        rep.floor("memcheck_inputs_fed", 100);
     }
     rep.floor("inputs_resp", 100);
     rep.floor("inputs_cmd", 300);
